@@ -36,6 +36,14 @@ type c05Case struct {
 	MSIN   string `json:"msin"`    // SUPI digits = MCC || MNC || MSIN, 5..15 digits in total
 	EncAlg uint8  `json:"enc_alg"` // 0..3, used only as the algorithm-key distinguisher
 	IntAlg uint8  `json:"int_alg"`
+	// Label: the SUPI label of the context: "imsi-" (what CreateUE writes) or "supi-" (which the library accepts as well)
+	Label string `json:"supi_label,omitempty"`
+	// Stored: what the context's own AuthenticationSubs holds while the derivation is called with the credentials of
+	// THIS case as its argument: "" = the same subscription (as RegisterUE does), "other" = another subscriber's
+	// (K', OPc'), "other-op" = (K', OP' only), "none" = nil. The argument decides.
+	Stored   string `json:"stored_subscription,omitempty"`
+	StoredK  []byte `json:"stored_k,omitempty"`
+	StoredOP []byte `json:"stored_op,omitempty"`
 }
 
 var c05Modes = []string{"op-only", "opc-only", "both"}
@@ -81,6 +89,11 @@ func genC05(t *rapid.T) c05Case {
 		n = rapid.IntRange(0, maxMsin).Draw(t, "msinlen")
 	}
 	c.MSIN = genDigits(t, n, "msin")
+	c.Label = rapid.SampledFrom([]string{"imsi-", "imsi-", "imsi-", "supi-"}).Draw(t, "supi_label")
+	c.Stored = rapid.SampledFrom([]string{"", "", "", "other", "other-op", "none"}).Draw(t, "stored")
+	if c.Stored == "other" || c.Stored == "other-op" {
+		c.StoredK, c.StoredOP = gen128(t, "stored_k"), gen128(t, "stored_op")
+	}
 	return c
 }
 
@@ -108,20 +121,35 @@ func c05Run(c c05Case, opcHex, opHex string, snn string) c05Out {
 		}
 		return s
 	}
-	supi := "imsi-" + c.MCC + c.MNC + c.MSIN
+	label := c.Label
+	if label == "" {
+		label = "imsi-"
+	}
+	supi := label + c.MCC + c.MNC + c.MSIN
 	ue := tglib.NewRanUeContext(supi, 1, c.EncAlg, c.IntAlg)
-	ue.AuthenticationSubs = tglib.GetAuthSubscription(enc(c.K), opcHex, opHex)
+	arg := tglib.GetAuthSubscription(enc(c.K), opcHex, opHex)
+	switch c.Stored {
+	case "other":
+		k, op := a16(c.StoredK), a16(c.StoredOP)
+		opc := refcrypto.OPc(k, op)
+		ue.AuthenticationSubs = tglib.GetAuthSubscription(enc(c.StoredK), enc(opc[:]), enc(c.StoredOP))
+	case "other-op":
+		ue.AuthenticationSubs = tglib.GetAuthSubscription(enc(c.StoredK), "", enc(c.StoredOP))
+	case "none":
+	default:
+		ue.AuthenticationSubs = arg
+	}
 	var autn [16]byte
 	copy(autn[:], c.AUTN)
 	rnd := append([]byte{}, c.RAND...)
-	res := ue.DeriveRESstarAndSetKey(ue.AuthenticationSubs, autn, rnd, snn, c.MNC, c.MCC)
+	res := ue.DeriveRESstarAndSetKey(arg, autn, rnd, snn, c.MNC, c.MCC)
 	return c05Out{res: res, kamf: ue.Kamf, enc: ue.KnasEnc, in: ue.KnasInt}
 }
 
 func c05Oracle(c c05Case) ev.Verdict {
 	v := ev.Verdict{NT: true}
 	v.Classes = []string{c.Mode, fmt.Sprintf("mnc%d", len(c.MNC)), fmt.Sprintf("alg enc=%d int=%d", c.EncAlg, c.IntAlg),
-		fmt.Sprintf("supi-digits=%d", 3+len(c.MNC)+len(c.MSIN))}
+		fmt.Sprintf("supi-digits=%d", 3+len(c.MNC)+len(c.MSIN)), "label:" + c.Label, "stored-subscription:" + c.Stored}
 	if len(c.K) != 16 || len(c.OP) != 16 || len(c.RAND) != 16 || len(c.AUTN) != 16 || len(c.MCC) != 3 || (len(c.MNC) != 2 && len(c.MNC) != 3) ||
 		len(c.MSIN) > 15-3-len(c.MNC) || c.EncAlg > 3 || c.IntAlg > 3 {
 		v.Skip = true // would make the library call fatal.Fatalf / is outside the configuration domain
